@@ -51,6 +51,30 @@ def flag_rule(ck, module, fn, qual):
     return n
 
 
+def surplus_rule(ck, rule):
+    """repair_graph(): an unrecognised atom is dropped exactly when its own residue carries a request -- shared by C19 and C04."""
+    rg = ck.index.mod(RG)
+    rgf = rg.func('repair_graph')
+    ck.analysed(rg, rgf)
+    rem = stmts_with_env(rgf, lambda s: isinstance(s, ast.Expr) and call_attr(s.value) == 'remove_node')
+    ok = len(rem) == 1
+    if ok:
+        st, c, e = rem[0]
+        loop = rg.enclosing(st, ast.For)
+        rel = stmts_with_env(rgf, lambda s: s is st, stmts=loop.body)
+        names = {}
+        for k in flow.atoms_of(rel[0][1]):
+            if k[0] == 'truth' and k[1] == "molecule.nodes[{}].get('mutation')".format(u(loop.target)):
+                names[k] = 'MUT'
+            elif k[0] == 'truth' and k[1] == "molecule.nodes[{}].get('modification')".format(u(loop.target)):
+                names[k] = 'MOD'
+        ok = flow.equivalent(flow.rename(rel[0][1], names), flow.parse_formula('MUT or MOD'))[0] and u(st.value.args[0]) == u(loop.target)
+        src = single_def(rgf, u(loop.iter)) if isinstance(loop.iter, ast.Name) else loop.iter
+        ok = ok and src is not None and u(src) == 'set(found.nodes) - set(match.values())'
+    ck.ob(rule, rg.loc(rgf), ok, 'an atom of the old residue that the requested block/modification does not account for is removed exactly when the residue '
+          'carries a mutation or modification request', key=rule)
+
+
 def run(ck):
     idx = ck.index
     mod = idx.mod(AM)
@@ -262,26 +286,25 @@ def run(ck):
     ck.ob('PROV-spec-separator', mod.loc(parse), len(chain) == 1 and isinstance(chain[0].targets[0], ast.Tuple) and isinstance(chain[0].targets[0].elts[0], ast.Starred),
           'the chain is what precedes the first "-", when there is one', key='PROV-spec-separator|chain')
 
+    # ------------------------------------------------------------ DT: the request specification is read as documented (interpreted on 14 spellings)
+    from .. import interp as _interp
+    cases_ = {'A-LYS2': {'chain': 'A', 'resname': 'LYS', 'resid': 2}, 'PO4#2': {'resname': 'PO4', 'resid': 2}, 'A-13': {'chain': 'A', 'resid': 13}, '14': {'resid': 14},
+              'LYS': {'resname': 'LYS'}, 'A-LYS': {'chain': 'A', 'resname': 'LYS'}, 'nter': {'resname': 'nter'}, 'A-PO4#12': {'chain': 'A', 'resname': 'PO4', 'resid': 12},
+              'X5': {'resname': 'X', 'resid': 5}, 'B-GLY100': {'chain': 'B', 'resname': 'GLY', 'resid': 100}, '7': {'resid': 7}, 'A-7': {'chain': 'A', 'resid': 7},
+              'cter': {'resname': 'cter'}, 'AB-HIS1234': {'chain': 'AB', 'resname': 'HIS', 'resid': 1234}}
+    bad_ = None
+    try:
+        for spec_, want_ in cases_.items():
+            got_ = _interp.call(parse.body, {parse.args.args[0].arg: spec_})
+            if got_ != want_:
+                bad_ = '{!r} is read as {} (documented: {})'.format(spec_, got_, want_)
+                break
+    except (_interp.Unsupported, ValueError, TypeError, KeyError) as err_:
+        bad_ = 'could not be interpreted: {}'.format(err_)
+    ck.ob('DT-spec', mod.loc(parse), bad_ is None, 'a request "[<chain>-][<resname>][[#]<resid>]" is split into its parts as documented ({} spellings interpreted){}'.format(
+        len(cases_), '' if bad_ is None else ' -- ' + bad_), key='DT-spec|parse_residue_spec')
     # ------------------------------------------------------------ PROV: surplus atoms of a mutated residue are dropped
-    rgf = rg.func('repair_graph')
-    ck.analysed(rg, rgf)
-    rem = stmts_with_env(rgf, lambda s: isinstance(s, ast.Expr) and call_attr(s.value) == 'remove_node')
-    ok = len(rem) == 1
-    if ok:
-        st, c, e = rem[0]
-        loop = rg.enclosing(st, ast.For)
-        rel = stmts_with_env(rgf, lambda s: s is st, stmts=loop.body)
-        names = {}
-        for k in flow.atoms_of(rel[0][1]):
-            if k[0] == 'truth' and k[1] == "molecule.nodes[{}].get('mutation')".format(u(loop.target)):
-                names[k] = 'MUT'
-            elif k[0] == 'truth' and k[1] == "molecule.nodes[{}].get('modification')".format(u(loop.target)):
-                names[k] = 'MOD'
-        ok = flow.equivalent(flow.rename(rel[0][1], names), flow.parse_formula('MUT or MOD'))[0] and u(st.value.args[0]) == u(loop.target)
-        src = single_def(rgf, u(loop.iter)) if isinstance(loop.iter, ast.Name) else loop.iter
-        ok = ok and src is not None and u(src) == 'set(found.nodes) - set(match.values())'
-    ck.ob('PROV-surplus', rg.loc(rgf), ok, 'an atom of the old residue that the requested block/modification does not account for is removed exactly when the residue '
-          'carries a mutation or modification request', key='PROV-surplus')
+    surplus_rule(ck, 'PROV-surplus')
     shared.reference_residue_rules(ck, 'MPT-all-requests')
     shared.rebuilt_atom_identity(ck, 'PROV-rebuilt')
     shared.truthy_zero(ck, [AM, RG])
